@@ -1,6 +1,7 @@
 (* C07 - the literal evaluator gives back the original text: for repr (every
    non-multiline call of text_repr) and for the per-character model of the
-   multiline branch. *)
+   multiline branch; the literal transliteration of text_repr equals the
+   per-character model (Section LitTok). *)
 From TT Require Import Lib.Base Model.TextRepr.
 Local Open Scope N_scope.
 
@@ -360,3 +361,347 @@ Section RoundTrip.
     rewrite B; [reflexivity|lia].
   Qed.
 End RoundTrip.
+
+(* ---------- the literal transliteration of text_repr is the per-character formulation ----------
+   (i) str.replace of backslash+quote never matches across an escape boundary, so after split / repr /
+   slice / replace / join every quote stands raw and every other character as repr escapes it;
+   (ii) the find / insert / p += 2 loop puts a backslash exactly before the single quotes that are
+   followed by two more single quotes, within its fuel. *)
+Section LitTok.
+  Variable isb : bool.
+  Variable nonprint : N -> bool.
+  Notation esc := (esc isb nonprint).
+  Notation rawc := (rawc isb nonprint).
+  Notation esc_ml := (esc_ml isb nonprint).
+  Notation body_ml := (body_ml isb nonprint).
+  Notation repr := (repr isb nonprint).
+  Notation line_body := (line_body isb nonprint).
+
+  (* ---------- the shape of one escaped character ---------- *)
+  Definition plain (x : N) : Prop := x <> BS /\ x <> SQ /\ x <> DQ.
+
+  Lemma hexdigit_plain d : d < 16 -> plain (hexdigit d).
+  Proof.
+    unfold hexdigit, plain, BS, SQ, DQ. intro H. destruct (d <? 10) eqn:E.
+    - apply N.ltb_lt in E. repeat split; lia.
+    - apply N.ltb_ge in E. repeat split; lia.
+  Qed.
+
+  Lemma hex_plain n : forall c, Forall plain (hex n c).
+  Proof.
+    induction n as [|n IH]; intro c; simpl; [constructor|].
+    apply Forall_app. split; [apply IH|]. constructor; [|constructor].
+    apply hexdigit_plain. apply N.mod_lt. discriminate.
+  Qed.
+
+  Lemma hexesc_shape c : exists e t, hexesc isb c = BS :: e :: t /\ Forall plain (e :: t).
+  Proof.
+    unfold hexesc. destruct (isb || (c <? 256)); [|destruct (c <? 65536)];
+      eexists _, _; (split; [reflexivity|]); (constructor; [|apply hex_plain]);
+      unfold plain, BS, SQ, DQ; repeat split; discriminate.
+  Qed.
+
+  Definition isq (q : N) : Prop := q = SQ \/ q = DQ.
+
+  Lemma esc_cases q c : isq q ->
+    (c = q /\ esc q c = [BS; q])
+    \/ (c = BS /\ esc q c = [BS; BS])
+    \/ (c <> q /\ c <> BS /\ exists e t, esc q c = BS :: e :: t /\ Forall plain (e :: t))
+    \/ (c <> q /\ c <> BS /\ esc q c = [c]).
+  Proof.
+    intro Hq. unfold TextRepr.esc.
+    destruct (N.eqb c BS) eqn:E1.
+    { apply N.eqb_eq in E1. right; left. auto. }
+    destruct (N.eqb c q) eqn:E2.
+    { apply N.eqb_eq in E2. left. subst. auto. }
+    apply N.eqb_neq in E1. apply N.eqb_neq in E2.
+    assert (P : forall x, x <> BS -> x <> SQ -> x <> DQ -> Forall plain [x]).
+    { intros x A B C. constructor; [|constructor]. repeat split; assumption. }
+    destruct (N.eqb c TAB).
+    { right; right; left. repeat split; auto. eexists _, _. split; [reflexivity|]. apply P; discriminate. }
+    destruct (N.eqb c NL).
+    { right; right; left. repeat split; auto. eexists _, _. split; [reflexivity|]. apply P; discriminate. }
+    destruct (N.eqb c CR).
+    { right; right; left. repeat split; auto. eexists _, _. split; [reflexivity|]. apply P; discriminate. }
+    destruct (rawc c).
+    - right; right; right. auto.
+    - right; right; left. repeat split; auto. apply hexesc_shape.
+  Qed.
+
+  Lemma esc_indep q1 q2 c : c <> q1 -> c <> q2 -> esc q1 c = esc q2 c.
+  Proof.
+    intros H1 H2. unfold TextRepr.esc. apply N.eqb_neq in H1. apply N.eqb_neq in H2. rewrite H1, H2. reflexivity.
+  Qed.
+
+  (* one character of a multiline body before the triple-quote pass *)
+  Definition e0 (c : N) : list N := esc_ml c false.
+
+  Lemma e0_sq : e0 SQ = [SQ].
+  Proof. reflexivity. Qed.
+  Lemma e0_dq : e0 DQ = [DQ].
+  Proof. reflexivity. Qed.
+  Lemma e0_nl : e0 NL = [NL].
+  Proof. reflexivity. Qed.
+  Lemma e0_other c : c <> SQ -> c <> DQ -> c <> NL -> e0 c = esc SQ c.
+  Proof.
+    intros A B C. unfold e0, TextRepr.esc_ml. apply N.eqb_neq in A. apply N.eqb_neq in B. apply N.eqb_neq in C.
+    rewrite A, B, C. reflexivity.
+  Qed.
+
+  (* ---------- str.replace never matches across an escape boundary ---------- *)
+  Definition headnq (q : N) (R : list N) : Prop := match R with [] => True | y :: _ => y <> q end.
+
+  Lemma replace2_other q x R : x <> BS -> replace2 BS q (x :: R) = x :: replace2 BS q R.
+  Proof.
+    intro H. apply N.eqb_neq in H. destruct R as [|y t]; simpl; [reflexivity|]. rewrite H. reflexivity.
+  Qed.
+
+  Lemma replace2_bs q R : headnq q R -> replace2 BS q (BS :: R) = BS :: replace2 BS q R.
+  Proof.
+    destruct R as [|y t]; simpl; intro H; [reflexivity|]. apply N.eqb_neq in H. rewrite H, ?andb_false_r. reflexivity.
+  Qed.
+
+  Lemma replace2_hit q R : replace2 BS q (BS :: q :: R) = q :: replace2 BS q R.
+  Proof. simpl. rewrite !N.eqb_refl. reflexivity. Qed.
+
+  Lemma replace2_plain q l : Forall plain l -> forall R, replace2 BS q (l ++ R) = l ++ replace2 BS q R.
+  Proof.
+    induction 1 as [|x l [H _] _ IH]; intro R; [reflexivity|].
+    change ((x :: l) ++ R)%list with (x :: (l ++ R))%list. rewrite replace2_other by exact H. rewrite IH. reflexivity.
+  Qed.
+
+  Lemma headnq_esc q c X : isq q -> headnq q (esc q c ++ X).
+  Proof.
+    intro Hq. destruct (esc_cases q c Hq) as [[_ E]|[[_ E]|[[N1 [_ [e [t [E _]]]]]|[N1 [_ E]]]]]; rewrite E; simpl; auto;
+      destruct Hq as [-> | ->]; discriminate.
+  Qed.
+
+  Lemma headnq_flat q r : isq q -> headnq q (flat_map (esc q) r).
+  Proof. intro Hq. destruct r as [|c r]; simpl; [exact I|]. apply headnq_esc. exact Hq. Qed.
+
+  Lemma replace2_esc q c R : isq q -> c <> NL -> headnq q R ->
+    replace2 BS q (esc q c ++ R) = (e0 c ++ replace2 BS q R)%list.
+  Proof.
+    intros Hq NNL HR.
+    assert (QB : q <> BS) by (destruct Hq as [-> | ->]; discriminate).
+    destruct (esc_cases q c Hq) as [[-> E]|[[-> E]|[[N1 [N2 [e [t [E P]]]]]|[N1 [N2 E]]]]].
+    - rewrite E. simpl app. rewrite replace2_hit. destruct Hq as [-> | ->]; reflexivity.
+    - rewrite E. simpl app. rewrite replace2_bs by (simpl; auto). rewrite replace2_bs by exact HR.
+      reflexivity.
+    - assert (E0 : e0 c = esc q c).
+      { destruct (N.eq_dec c SQ) as [->|S1].
+        - (* q = DQ, the raw single quote: not of this shape *)
+          exfalso. destruct Hq as [-> | ->]; [apply N1; reflexivity|].
+          inversion P as [|? ? [_ [Hs _]] _]; subst. unfold TextRepr.esc in E. simpl in E. discriminate.
+        - destruct (N.eq_dec c DQ) as [->|D1].
+          + exfalso. destruct Hq as [-> | ->]; [|apply N1; reflexivity].
+            unfold TextRepr.esc in E. simpl in E. discriminate.
+          + rewrite e0_other by assumption. apply esc_indep; assumption. }
+      rewrite E0, E. change ((BS :: e :: t) ++ R)%list with (BS :: ((e :: t) ++ R))%list.
+      rewrite replace2_bs.
+      + rewrite replace2_plain by exact P. reflexivity.
+      + simpl. inversion P as [|? ? [_ [Hs Hd]] _]; subst. destruct Hq as [-> | ->]; assumption.
+    - assert (E0 : e0 c = [c]).
+      { destruct (N.eq_dec c SQ) as [->|S1]; [reflexivity|].
+        destruct (N.eq_dec c DQ) as [->|D1]; [reflexivity|].
+        rewrite e0_other by assumption. rewrite (esc_indep SQ q) by assumption. exact E. }
+      rewrite E0, E. simpl app. apply replace2_other. exact N2.
+  Qed.
+
+  Lemma replace2_line q line : isq q -> ~ In NL line ->
+    replace2 BS q (flat_map (esc q) line) = flat_map e0 line.
+  Proof.
+    intros Hq. induction line as [|c r IH]; intro H; [reflexivity|].
+    simpl flat_map. rewrite replace2_esc; [|exact Hq| |apply headnq_flat; exact Hq].
+    - rewrite IH; [reflexivity|]. intro X; apply H; right; exact X.
+    - intro X. apply H. left. auto.
+  Qed.
+
+  (* ---------- one line ---------- *)
+  Lemma skipn_exact {A} (a b : list A) : skipn (length a) (a ++ b) = b.
+  Proof. induction a; simpl; auto. Qed.
+
+  Lemma quote_for_isq s : isq (quote_for s).
+  Proof. unfold quote_for. destruct (memN SQ s && negb (memN DQ s)); [right|left]; reflexivity. Qed.
+
+  Lemma line_body_eq line : ~ In NL line -> line_body line = flat_map e0 line.
+  Proof.
+    intro H. unfold TextRepr.line_body, TextRepr.repr.
+    set (q := quote_for line). set (body := flat_map (esc q) line).
+    replace (prefix isb ++ [q] ++ body ++ [q])%list with (((prefix isb ++ [q]) ++ body) ++ [q])%list
+      by (rewrite <- !app_assoc; reflexivity).
+    rewrite last_last, removelast_last.
+    replace (length (prefix isb) + 1)%nat with (length (prefix isb ++ [q])) by (rewrite app_length; reflexivity).
+    rewrite skipn_exact. apply replace2_line; [apply quote_for_isq|exact H].
+  Qed.
+
+  (* ---------- split, repr every line, join ---------- *)
+  Lemma join_cons (sep l : list N) rest : rest <> [] -> join sep (l :: rest) = (l ++ sep ++ join sep rest)%list.
+  Proof. destruct rest; [congruence|reflexivity]. Qed.
+
+  Lemma split_on_nonempty sep s : forall cur, split_on sep s cur <> [].
+  Proof. induction s as [|c r IH]; intro cur; simpl; [discriminate|]. destruct (c =? sep); [discriminate|apply IH]. Qed.
+
+  Lemma lines_eq s : forall cur, ~ In NL cur ->
+    join [NL] (map line_body (split_on NL s cur)) = flat_map e0 (rev cur ++ s).
+  Proof.
+    induction s as [|c r IH]; intros cur H; simpl split_on.
+    - simpl. rewrite app_nil_r. apply line_body_eq. intro X. apply H. apply in_rev. exact X.
+    - destruct (c =? NL) eqn:E.
+      + apply N.eqb_eq in E. subst c. simpl map. rewrite join_cons.
+        * rewrite line_body_eq by (intro X; apply H; apply in_rev; exact X).
+          rewrite (IH [] (fun x => x)). change (rev [] ++ r)%list with r. rewrite flat_map_app. reflexivity.
+        * intro X. apply map_eq_nil in X. exact (split_on_nonempty _ _ _ X).
+      + apply N.eqb_neq in E. rewrite IH.
+        * simpl rev. rewrite <- app_assoc. reflexivity.
+        * intros [X|X]; [apply E; auto|apply H; exact X].
+  Qed.
+
+  (* ---------- the find / insert loop ---------- *)
+  Fixpoint ins (l : list N) : list N :=
+    match l with
+    | [] => []
+    | c :: r => ((if flag c r then [BS; c] else [c]) ++ ins r)%list
+    end.
+
+  Definition tri (l : list N) : bool :=
+    match l with a :: b :: c :: _ => N.eqb a SQ && N.eqb b SQ && N.eqb c SQ | _ => false end.
+
+  Lemma flag_tri c r : flag c r = tri (c :: r).
+  Proof. unfold flag, tri. destruct r as [|a [|b t]]; rewrite ?andb_false_r; try reflexivity. rewrite andb_assoc. reflexivity. Qed.
+
+  Lemma find3_unfold s : find3 s = match s with
+                                   | [] => None
+                                   | a :: r => if tri s then Some O
+                                               else match r with _ :: _ :: _ => option_map S (find3 r) | _ => None end
+                                   end.
+  Proof. destruct s as [|a [|b [|c t]]]; reflexivity. Qed.
+
+  Lemma find3_short r : (length r < 3)%nat -> find3 r = None.
+  Proof. destruct r as [|a [|b [|c t]]]; simpl; intro H; try reflexivity. lia. Qed.
+
+  Lemma find3_none s : find3 s = None -> ins s = s.
+  Proof.
+    induction s as [|a r IH]; intro H; [reflexivity|]. rewrite find3_unfold in H.
+    simpl ins. rewrite flag_tri. destruct (tri (a :: r)); [discriminate|].
+    simpl. f_equal. apply IH. destruct r as [|b [|c t]]; try reflexivity.
+    destruct (find3 (b :: c :: t)); [discriminate|reflexivity].
+  Qed.
+
+  Lemma find3_some s : forall k, find3 s = Some k ->
+    exists pre t, s = (pre ++ SQ :: SQ :: SQ :: t)%list /\ length pre = k
+                  /\ ins s = (pre ++ BS :: SQ :: ins (SQ :: SQ :: t))%list.
+  Proof.
+    induction s as [|a r IH]; intros k H; [discriminate|]. rewrite find3_unfold in H.
+    destruct (tri (a :: r)) eqn:T.
+    - injection H as <-. destruct r as [|b [|c t]]; try discriminate. simpl in T.
+      apply andb_true_iff in T as [T T3]. apply andb_true_iff in T as [T1 T2].
+      apply N.eqb_eq in T1, T2, T3. subst. exists [], t. repeat split; reflexivity.
+    - destruct r as [|b [|c t]]; try discriminate.
+      destruct (find3 (b :: c :: t)) as [k'|] eqn:F; [|discriminate]. injection H as <-.
+      destruct (IH k' eq_refl) as [pre [t' [E [L I]]]].
+      exists (a :: pre), t'. repeat split.
+      + simpl. rewrite <- E. reflexivity.
+      + simpl. rewrite L. reflexivity.
+      + change (ins (a :: b :: c :: t)) with ((if flag a (b :: c :: t) then [BS; a] else [a]) ++ ins (b :: c :: t))%list.
+        rewrite flag_tri, T, I. reflexivity.
+  Qed.
+
+  Lemma firstn_exact {A} (a b : list A) : firstn (length a) (a ++ b) = a.
+  Proof. induction a; simpl; [destruct b; reflexivity|]. f_equal. assumption. Qed.
+
+  Lemma triple_loop_ins fuel : forall done s, (length s <= fuel)%nat ->
+    triple_loop fuel done s = (rev done ++ ins s)%list.
+  Proof.
+    induction fuel as [|f IH]; intros done s L.
+    - destruct s; [reflexivity|simpl in L; lia].
+    - simpl triple_loop. destruct (find3 s) as [k|] eqn:F.
+      + destruct (find3_some s k F) as [pre [t [E [Lp I]]]]. subst k.
+        rewrite I. clear I F. subst s. rewrite !skipn_exact, !firstn_exact.
+        change (firstn 2 (BS :: SQ :: SQ :: SQ :: t)) with [BS; SQ].
+        change (skipn 2 (BS :: SQ :: SQ :: SQ :: t)) with (SQ :: SQ :: t).
+        rewrite IH.
+        * rewrite !rev_app_distr, rev_involutive. simpl. rewrite <- !app_assoc. reflexivity.
+        * rewrite app_length in L. simpl in *. lia.
+      + rewrite (find3_none s F). reflexivity.
+  Qed.
+
+  (* ---------- the inserted backslashes are those of the per-character formulation ---------- *)
+  Lemma plain_nosq l : Forall plain l -> Forall (fun x => x <> SQ) l.
+  Proof. induction 1 as [|x l [_ [H _]] _ IH]; constructor; assumption. Qed.
+
+  Lemma e0_shape c : (c = SQ /\ e0 c = [SQ]) \/ (c <> SQ /\ e0 c <> [] /\ Forall (fun x => x <> SQ) (e0 c)).
+  Proof.
+    destruct (N.eq_dec c SQ) as [->|S1]; [left; auto|right]. split; [exact S1|].
+    destruct (N.eq_dec c DQ) as [->|D1]; [rewrite e0_dq; split; [discriminate|repeat constructor; discriminate]|].
+    destruct (N.eq_dec c NL) as [->|N1]; [rewrite e0_nl; split; [discriminate|repeat constructor; discriminate]|].
+    rewrite e0_other by assumption.
+    destruct (esc_cases SQ c (or_introl eq_refl)) as [[-> E]|[[-> E]|[[_ [_ [e [t [E P]]]]]|[_ [_ E]]]]]; rewrite E.
+    - contradiction S1; reflexivity.
+    - split; [discriminate|repeat constructor; discriminate].
+    - split; [discriminate|]. constructor; [discriminate|apply plain_nosq; exact P].
+    - split; [discriminate|]. repeat constructor. exact S1.
+  Qed.
+
+  Definition two (l : list N) : bool := match l with a :: b :: _ => N.eqb a SQ && N.eqb b SQ | _ => false end.
+
+  Lemma head_nosq_app (l R : list N) : l <> [] -> Forall (fun x => x <> SQ) l ->
+    exists h t, (l ++ R)%list = h :: t /\ N.eqb h SQ = false.
+  Proof.
+    intros NE F. destruct l as [|h t]; [congruence|]. inversion F; subst.
+    exists h, (t ++ R)%list. split; [reflexivity|]. apply N.eqb_neq. assumption.
+  Qed.
+
+  Lemma starts_flat r : (match flat_map e0 r with a :: _ => N.eqb a SQ | [] => false end)
+                        = (match r with a :: _ => N.eqb a SQ | [] => false end).
+  Proof.
+    destruct r as [|a r]; [reflexivity|]. simpl flat_map.
+    destruct (e0_shape a) as [[-> E]|[S1 [NE F]]].
+    - rewrite E. reflexivity.
+    - destruct (head_nosq_app _ (flat_map e0 r) NE F) as [h [t [E H]]]. rewrite E, H.
+      symmetry. apply N.eqb_neq. exact S1.
+  Qed.
+
+  Lemma two_flat r : two (flat_map e0 r) = two r.
+  Proof.
+    destruct r as [|a r]; [reflexivity|]. simpl flat_map.
+    destruct (e0_shape a) as [[-> E]|[S1 [NE F]]].
+    - rewrite E. simpl app. unfold two. pose proof (starts_flat r) as S.
+      destruct (flat_map e0 r) as [|x y]; destruct r as [|b r']; simpl in *; try reflexivity.
+      + discriminate S || (rewrite <- S; reflexivity).
+      + rewrite S. reflexivity.
+      + rewrite S. reflexivity.
+    - destruct (head_nosq_app _ (flat_map e0 r) NE F) as [h [t [E H]]]. rewrite E. unfold two.
+      apply N.eqb_neq in S1. destruct t; destruct r; rewrite ?H, ?S1; reflexivity.
+  Qed.
+
+  Lemma flag_two c r : flag c r = N.eqb c SQ && two r.
+  Proof. reflexivity. Qed.
+
+  Lemma ins_nosq l : Forall (fun x => x <> SQ) l -> forall R, ins (l ++ R) = (l ++ ins R)%list.
+  Proof.
+    induction 1 as [|x l H _ IH]; intro R; [reflexivity|]. simpl. rewrite flag_two.
+    apply N.eqb_neq in H. rewrite H. simpl. rewrite IH. reflexivity.
+  Qed.
+
+  Lemma ins_flat l : ins (flat_map e0 l) = body_ml l.
+  Proof.
+    induction l as [|c r IH]; [reflexivity|]. simpl flat_map. simpl TextRepr.body_ml.
+    destruct (e0_shape c) as [[-> E]|[S1 [NE F]]].
+    - rewrite E. simpl app. simpl ins. rewrite !flag_two, two_flat, IH. reflexivity.
+    - rewrite ins_nosq by exact F. rewrite IH. f_equal.
+      unfold e0, TextRepr.esc_ml. apply N.eqb_neq in S1. rewrite S1. reflexivity.
+  Qed.
+
+  (* ---------- the two formulations of text_repr are the same function ---------- *)
+  Theorem lit_eq_tok s ml : text_repr_lit isb nonprint s ml = text_repr_tok isb nonprint s ml.
+  Proof.
+    unfold text_repr_lit, text_repr_tok.
+    destruct (negb (match ml with Some b => b | None => memN NL s end)); [reflexivity|].
+    rewrite (lines_eq s [] (fun x => x)). simpl rev. simpl app at 1.
+    rewrite triple_loop_ins by lia. simpl rev. simpl app at 3.
+    replace (flat_map e0 s ++ [SQ; SQ])%list with (flat_map e0 (s ++ [SQ; SQ]))
+      by (rewrite flat_map_app; reflexivity).
+    rewrite ins_flat. reflexivity.
+  Qed.
+End LitTok.
